@@ -25,7 +25,7 @@ HEADER = (dt.COQ_HEADER + 'From FJ Require Import Model.Expr Model.Macro.\n'
           'Definition p0 := mkpos "" "" 0.\n')
 TAGS = {'unknown_macro': 1, 'depth': 2, 'dup_label': 3, 'rep_times': 4, 'pad_eval': 5, 'pad_nonpositive': 6,
         'pad_unaligned': 7, 'segment_eval': 8, 'segment_unaligned': 9, 'reserve_eval': 10, 'reserve_unaligned': 11,
-        'bad_label_swap': 12, 'rep_args': 13, 'eval_new': 14}
+        'bad_label_swap': 12, 'rep_args': 13, 'eval_new': 14, 'pad_too_far': 17}
 
 
 # ---- Python -> Coq --------------------------------------------------------------------------------------------------
@@ -140,12 +140,40 @@ def make_job(seed_key, idx):
     return job, prog, prims, stuck
 
 
+def strip_pos(x):
+    if isinstance(x, dict):
+        return {k: strip_pos(v) for k, v in x.items() if k != 'pos'}
+    if isinstance(x, list):
+        return [strip_pos(v) for v in x]
+    return x
+
+
 def img_key(img):
     return ('ok', img['hash']) if img['ok'] else ('fail',)
 
 
-def judge_images(ctx, job, out, stuck):
+# hand-written programs for constructs the generator keeps out of the random programs (name, macro program, its textual
+# inlining, signature kind used for known_findings.json)
+DIRECTED = [
+    ('dollar-as-argument', 'def m x {\n    ;x\n}\nm $\n;0\n', ';$\n;0\n', 'dollar-argument'),
+    ('dollar-in-argument-expression', 'def m x {\n    x;\n    ;0\n}\nm ($ + 64)\n', '($ + 64);\n;0\n', 'dollar-argument'),
+    ('dollar-as-rep-argument', 'def m x {\n    ;x\n}\nrep(2, i) m ($ + i)\n;0\n', ';($ + 0)\n;($ + 1)\n;0\n',
+     'dollar-argument'),
+]
+
+
+def check_directed(ctx):
+    jobs = [{'id': i, 'w': 64, 'depth': 900, 'variants': {'a': [['f1', a]], 'b': [['f1', b]], 'c': None}, 'dump': []}
+            for i, (_, a, b, _) in enumerate(DIRECTED)]
+    outs = fw.run_worker(ctx, 'macro', {'jobs': jobs})
+    for (name, _, _, kind), job, out in zip(DIRECTED, jobs, outs):
+        ok = judge_images(ctx, job, out, None, kind=kind, name=name)
+        ctx.hist('directed_cases', f'{name}: {"agree" if ok else "differ"}')
+
+
+def judge_images(ctx, job, out, stuck, kind=None, name=None):
     """the property on the real code; returns True when (a),(b),(c) agree"""
+    directed_kind, directed_name = kind, name
     ia = out['a']['image']
     ok = True
     replay = {'w': job['w'], 'max_recursion_depth': job['depth'], 'a_macro_program': job['variants']['a'],
@@ -166,20 +194,53 @@ def judge_images(ctx, job, out, stuck):
             kind, desc = 'only-a-fails', f'{what} assembles but the macro program is rejected ({ia["error"]["class"]}: {ia["error"]["kind"]})'
         sig = {'kind': kind, 'pair': f'a-{name}', 'a_error': None if ia['ok'] else ia['error']['kind'],
                'x_error': None if ix['ok'] else ix['error']['kind']}
+        if directed_kind is not None:
+            sig = {'kind': directed_kind}
+            desc = f'[{directed_name}] {desc}' + (': ' + re.sub(r',? at file .*', '', ia['error']['msg'])[:120] if not ia['ok'] else '')
         ctx.violation(sig, f'macro program and {what}: {desc}',
                       dict(replay, observed={'a': ia, name: ix},
                            required='identical Reader(...).memory, memory_segments and zero ranges'))
     return ok
 
 
-def run(ctx):
-    fw.static_proofs(ctx, ['Properties/C03.v'])
-    n = ctx.n(640, 16000)
-    seed_key = f'C03:{ctx.seed}'
-    made = [make_job(seed_key, i) for i in range(n)]
+def check_namespaces(ctx):
+    """Model/Macro.v base_name_to_ns_full_name (and the generator's own resolution) against the real parser"""
+    rng = random.Random(f'C03-ns:{ctx.seed}')
+    jobs = []
+    for _ in range(ctx.n(160, 1500)):
+        curr = [rng.choice(mg.NS_NAMES) for _ in range(rng.randrange(0, 4))]
+        dots = rng.choice([0, 1, 1, 2, 2, 3, 4, 5])
+        rest = '.'.join(rng.choice(mg.IDS) for _ in range(rng.randrange(1, 4)))
+        if dots == 0 and '.' not in rest:
+            rest = rest + '.' + rng.choice(mg.IDS)          # a bare identifier is not a DOT_ID; `x.y` is
+        jobs.append({'curr': curr, 'spelled': '.' * dots + rest})
+    res = fw.run_worker(ctx, 'macro', {'ns_jobs': jobs})
+    terms = []
+    for j, r in zip(jobs, res):
+        exp = 'None' if r['name'] is None else f'(Some {dt.coq_string(r["name"])})'
+        terms.append(f'({dt.strs_to_coq(j["curr"])}, {dt.coq_string(j["spelled"])}, {exp})')
+        try:
+            mine = il.ns_resolve(j['spelled'], j['curr'])
+        except il.InlineStuck:
+            mine = None
+        ctx.hist('namespace_cases', 'resolved' if r['name'] is not None else 'too-many-dots')
+        if mine != r['name']:
+            ctx.violation({'kind': 'namespace-resolution'},
+                          f'inside namespaces {j["curr"]} the parser resolves {j["spelled"]!r} to {r["name"]!r}; '
+                          f'k leading dots strip k-1 levels gives {mine!r}', {'case': j, 'observed': r, 'required': mine})
+    oks = fw.coq_eval_shards(ctx, 'c03ns', HEADER, terms, 'check_ns')
+    bad = [j for j, ok in zip(jobs, oks) if ok is False]
+    if bad:
+        ctx.broken_tie('Model/Macro.v base_name_to_ns_full_name vs the parser', json.dumps(bad[:5]))
+    ctx.coverage['namespace_cases_checked'] = len(jobs)
+
+
+def run_batch(ctx, seed_key, first, count, totals):
+    """generate, assemble (a)(b)(c), judge, and evaluate in Coq the programs first .. first+count-1"""
+    made = [make_job(seed_key, i) for i in range(first, first + count)]
     jobs = [m[0] for m in made]
-    k = max(1, (n + fw.NCPU * 2 - 1) // (fw.NCPU * 2))
-    chunks = [jobs[i:i + k] for i in range(0, n, k)]
+    k = max(1, (count + fw.NCPU * 2 - 1) // (fw.NCPU * 2))
+    chunks = [jobs[i:i + k] for i in range(0, count, k)]
     outs = []
     for o in fw.run_workers_parallel(ctx, 'macro', [{'jobs': c} for c in chunks]):
         outs += o
@@ -205,6 +266,12 @@ def run(ctx):
             ctx.sample({'macro_program': job['variants']['a'][0][1], 'inlined_program': job['variants']['b'] and
                         job['variants']['b'][0][1], 'files_in_split': len(job['variants']['c']),
                         'image': a['image']})
+        if 'c' in job['dump'] and a.get('tree') is not None and out['c'].get('tree') is not None:
+            same = strip_pos(a['tree']) == strip_pos(out['c']['tree'])
+            ctx.hist('split_tree_is_same_tree_at_other_positions', same)
+            if not same:
+                ctx.broken_tie('C03_split hypothesis: the tree parsed from several files is not the one-file tree at other '
+                               'code positions', json.dumps({'a': job['variants']['a'], 'c': job['variants']['c']})[:2500])
         for name in job['dump']:
             v = out[name]
             if v.get('tree') is None:
@@ -212,19 +279,19 @@ def run(ctx):
                 continue
             mirror = mirror_to_coq(prims) if name == 'a' else 'None'
             terms.append(case_to_coq(job['w'], job['depth'], v['tree'], v['resolve'], mirror))
-            owners.append((job, name, v))
-    codes = coq_codes(ctx, 'c03', terms)
-    nbad = 0
-    for code, (job, name, v) in zip(codes, owners):
+            res = v['resolve']
+            owners.append((job['id'], {'variant': name, 'w': job['w'], 'depth': job['depth'],
+                                       'sources': job['variants'][name],
+                                       'observed_resolve': res if not res['ok'] else {'ok': True, 'n_ops': len(res['ops'])}}))
+    del outs, made
+    codes = coq_codes(ctx, f'c03_{first}', terms)
+    for code, (jid, detail) in zip(codes, owners):
         if code is None:
             continue
         ctx.hist('coq_case_bits', f'{code:05b}')
-        res = v['resolve']
-        detail = {'variant': name, 'w': job['w'], 'depth': job['depth'], 'sources': job['variants'][name],
-                  'observed_resolve': res if not res['ok'] else {'ok': True, 'n_ops': len(res['ops'])}}
         if not code & 1:
-            nbad += 1
-            if images_ok[job['id']]:
+            totals['bad'] += 1
+            if images_ok[jid]:
                 ctx.broken_tie('Model/Macro.v resolve_macros vs the real resolve_macros',
                                json.dumps(detail)[:2500])
         if not code & 2:
@@ -235,7 +302,23 @@ def run(ctx):
                            json.dumps(detail)[:2500])
         if not code & 16:
             ctx.broken_tie('harness/fjverif/inliner.py vs Spec/InlineSpec.v inline', json.dumps(detail)[:2500])
-    ctx.coverage['model_cases'] = len(terms)
+    totals['cases'] += len(terms)
+    for f in ctx.scratch.glob(f'c03_{first}_*'):
+        f.unlink()
+
+
+def run(ctx):
+    fw.static_proofs(ctx, ['Properties/C03.v'])
+    n = ctx.n(512, 12000)
+    seed_key = f'C03:{ctx.seed}'
+    totals = {'cases': 0, 'bad': 0}
+    check_namespaces(ctx)
+    check_directed(ctx)
+    batch = 1024                                    # bounds the memory held at any time
+    for first in range(0, n, batch):
+        run_batch(ctx, seed_key, first, min(batch, n - first), totals)
+    terms_n, nbad = totals['cases'], totals['bad']
+    ctx.coverage['model_cases'] = terms_n
     ctx.coverage['model_disagreements'] = nbad
     ctx.coverage['rule'] = (
         'generated macro programs (macros in levels up to nesting depth 6, arity overloading, nested re-opened namespaces, '
